@@ -755,6 +755,7 @@ _BTree_set(BTree *self, PyObject *keyarg, PyObject *value,
     int childlength;    /* len(self->data[min].child) */
     int status;         /* our return value; and return value from callee */
     int self_was_empty; /* was self empty at entry? */
+    int key_is_node_key = 0; /* deleting: is key the key of self->data[min]? */
 
     KEY_TYPE key;
     int copied = 1;
@@ -793,6 +794,21 @@ _BTree_set(BTree *self, PyObject *keyarg, PyObject *value,
 #ifdef PERSISTENT
     PER_READCURRENT(self, goto Error);
 #endif
+
+    if (!value && min)
+    {
+        /* Deleting.  If the key turns out to be the node key of the child
+        * it is deleted from, the node key has to be replaced afterwards (see
+        * below).  Find that out now:  comparing object keys can fail, and
+        * once the child -- or anything below it -- has been changed, every
+        * level up to the root has to get its chance to repair bucket links
+        * and firstbucket pointers; an error exit in the middle of that
+        * leaves an emptied bucket in the chain.
+        */
+        int _cmp = 1;
+        TEST_KEY_SET_OR(_cmp, key, d->key) goto Error;
+        key_is_node_key = _cmp == 0;
+    }
 
     if (SameType_Check(self, d->child))
         status = _BTree_set(BTREE(d->child), keyarg, value, unique, noval);
@@ -866,9 +882,7 @@ _BTree_set(BTree *self, PyObject *keyarg, PyObject *value,
 
         This doesn't apply to the 0th node, whos key is unused.
         */
-        int _cmp = 1;
-        TEST_KEY_SET_OR(_cmp, key, d->key) goto Error;
-        if (_cmp == 0) /* Need to replace key with first key from child */
+        if (key_is_node_key) /* Need to replace key with first key from child */
         {
             Bucket *bucket;
 
